@@ -61,6 +61,9 @@ pub struct CfbChoices {
     /// the 64-byte name field of directory entries holds stale characters after the terminating
     /// NUL (recycled entries); the name length field is authoritative
     pub name_tail_garbage: bool,
+    /// the end of the DIFAT chain (the header field when there is no DIFAT sector, else the link
+    /// of the last DIFAT sector) is written as FREESECT instead of ENDOFCHAIN, as older writers do
+    pub difat_end_freesect: bool,
 }
 
 impl Default for CfbChoices {
@@ -77,6 +80,7 @@ impl Default for CfbChoices {
             overalloc: false,
             size_high_garbage: false,
             name_tail_garbage: false,
+            difat_end_freesect: false,
         }
     }
 }
@@ -95,6 +99,7 @@ impl CfbChoices {
             overalloc: rng.chance(1, 4),
             size_high_garbage: rng.chance(1, 4),
             name_tail_garbage: rng.chance(1, 4),
+            difat_end_freesect: rng.chance(1, 4),
         }
     }
     pub fn features(&self) -> Vec<String> {
@@ -121,6 +126,9 @@ impl CfbChoices {
         }
         if self.name_tail_garbage {
             f.push("dir_name_tail_garbage".into());
+        }
+        if self.difat_end_freesect {
+            f.push("difat_end_freesect".into());
         }
         f
     }
@@ -458,7 +466,8 @@ pub fn build(entries: &[Entry], ch: &CfbChoices, rng: &mut Rng) -> Built {
     file[56..60].copy_from_slice(&4096u32.to_le_bytes());
     file[60..64].copy_from_slice(&minifat_chain.first().copied().unwrap_or(ENDOFCHAIN).to_le_bytes());
     file[64..68].copy_from_slice(&(n_minifat as u32).to_le_bytes());
-    file[68..72].copy_from_slice(&difat_sectors.first().copied().unwrap_or(ENDOFCHAIN).to_le_bytes());
+    let difat_end = if ch.difat_end_freesect { FREESECT } else { ENDOFCHAIN };
+    file[68..72].copy_from_slice(&difat_sectors.first().copied().unwrap_or(difat_end).to_le_bytes());
     file[72..76].copy_from_slice(&(n_difat as u32).to_le_bytes());
     for k in 0..109 {
         let v = fat_sectors.get(k).copied().unwrap_or(FREESECT);
@@ -477,7 +486,7 @@ pub fn build(entries: &[Entry], ch: &CfbChoices, rng: &mut Rng) -> Built {
             let v = rest.next().unwrap_or(FREESECT);
             buf[4 * j..4 * j + 4].copy_from_slice(&v.to_le_bytes());
         }
-        let next = difat_sectors.get(k + 1).copied().unwrap_or(ENDOFCHAIN);
+        let next = difat_sectors.get(k + 1).copied().unwrap_or(difat_end);
         buf[4 * (per - 1)..4 * per].copy_from_slice(&next.to_le_bytes());
     }
     // FAT sectors
